@@ -67,7 +67,7 @@ ALL_AGGS = ["postal_code", "county_fips", "county_classification", "district", "
 CLASSES = ["urban", "rural", "suburb"]
 
 
-def config(office="G", states=("AA", "BB"), features=("x1", "x2", "baseline_normalized_margin"), eid=EID, historical=()):
+def config(office="G", states=("AA", "BB"), features=("x1", "x2", "baseline_normalized_margin"), eid=EID, historical=(), pointer=None):
     return {
         eid: [
             {
@@ -78,7 +78,7 @@ def config(office="G", states=("AA", "BB"), features=("x1", "x2", "baseline_norm
                 "features": list(features),
                 "aggregates": list(ALL_AGGS),
                 "fixed_effect": ["postal_code", "county_classification", "county_fips", "district"],
-                "baseline_pointer": {"turnout": "turnout", "dem": "dem", "gop": "gop", "margin": "margin"},
+                "baseline_pointer": dict({"turnout": "turnout", "dem": "dem", "gop": "gop", "margin": "margin"}, **(pointer or {})),
             }
         ]
     }
